@@ -294,6 +294,27 @@ example :
      (serviceQuestions low [] 1000 true ["_x._tcp.local.", "_X._tcp.local."] []).1.map (·.q.name)) = (2, ["_x._tcp.local."]) := by
   decide
 
+/-! ## the browser's call site -/
+
+/-- `DNSQuestionType` as the leaves carry it (0 = `None`, 1 = QU, 2 = QM) → the `question_type` argument of `quOf` -/
+def C13.qtypeOf (n : Nat) : Option Bool := if n = 0 then none else some (n == 1)
+
+/-- **What a browser hands to `generate_service_query`** (`QueryScheduler.async_send_ready_queries`, translated leaves — review E6): its
+scheduler pass's own clock, and a question type that makes the query **QU exactly on the first request of a browser with no forced
+type**; a forced type is used for every request; an unforced browser's later requests are QM on a multicast browser (`quOf true none`).
+Which request is "first" (`_startup_queries_sent == 0`) and when requests are made is C10's (`C10_startup_four`). -/
+theorem C13_browser_call_site (now : Int) (first : Bool) (forced : Nat) :
+    Gen.BrowserQuery.query_time now = now ∧
+    quOf true (C13.qtypeOf (Gen.BrowserQuery.query_type_arg (Gen.BrowserQuery.question_type (forced == 0) first 1 forced))) =
+      (if forced = 0 then first else forced == 1) := by
+  refine ⟨GenFacts.QueryMsg.browser_query_time_eq now, ?_⟩
+  rw [GenFacts.QueryMsg.browser_question_type_eq]
+  by_cases hf : forced = 0
+  · subst hf
+    cases first <;> simp [C13.qtypeOf, quOf]
+  · have : (forced == 0) = false := by simpa using hf
+    simp [this, hf, C13.qtypeOf, quOf]
+
 /-! ## split over several packets with the TC bit -/
 
 section split
